@@ -18,6 +18,18 @@
     exc string <err>                => name=<Name> t=<n> m=<hex> tid=<TypeId()> msg=<hex Msg()> raw=<hex of String()|na> | nostring
         String() parsed back by the harness (name before '(', decimal type id, strconv.Unquote of the rest);
         raw only for ASCII messages (the model of %q covers ASCII)
+    exc multi <src> <err> <steps>   => src=<d> a1=<d> g1=<d> … an=<d> gn=<d> r1=<d>/<rel> … rn=<d>/<rel>
+        the helpers applied several times to ONE error object.  <d> = <kind>/<tid|->/<texthex>.
+        src   = `t`: the (interned) object of <err>;  `c.<name>`: the error the real codec returns for a fixed
+                malformed input (mostly package-level singletons), <err> = that error as it was at process start
+        steps = comma list: p<hex> PrependError(prefix, source)   P<hex> … applied to the result of the step before
+                            w      NewProtocolExceptionWithErr(source)   W … applied to the result of the step before
+        a<i>  = the object step i was applied to, read after the call;  g<i> = the source obtained once more after
+                step i (the interned object / a new call of the codec);  r<i> = result of step i, read after the LAST step;
+        rel   = prepend: cause nil|set|-;  wrap: same | new-same | new-other | new-nil (what Unwrap returns)
+        judged (C18, on the implementation's own src/r values): the argument and the source keep kind, type id and text;
+        every prepend result has the kind/type id of its argument and text = prefix ++ argument text, whatever was
+        called before; wrapping is the identity on protocol exceptions and keeps the cause otherwise.
   `nil` is accepted as <err>/<target> of prepend, wrap, is, pis (outside C18's domain: verdict na).
 -/
 import Verif.Base.DrvLoop
@@ -82,6 +94,91 @@ def maxId : Err → Nat
 
 def boolStr (b : Bool) : String := if b then "true" else "false"
 
+/-! ## `exc multi`: several helper calls on one object -/
+
+inductive MStep where
+  | prep (onPrev : Bool) (p : Bytes)
+  | wrap (onPrev : Bool)
+
+def MStep.onPrev : MStep → Bool
+  | .prep b _ => b
+  | .wrap b => b
+
+def parseStep (s : String) : Option MStep :=
+  match s.toList with
+  | 'p' :: r => (parseHex (String.ofList r)).map (.prep false)
+  | 'P' :: r => (parseHex (String.ofList r)).map (.prep true)
+  | ['w'] => some (.wrap false)
+  | ['W'] => some (.wrap true)
+  | _ => none
+
+def parseSteps (s : String) : Option (List MStep) := (s.splitOn ",").mapM parseStep
+
+def d3 (e : Err) : String := s!"{kindStr e.kind}/{tidStr e.typeId}/{toHex e.text}"
+
+structure MAcc where
+  i : Nat
+  fresh : Nat
+  prev : Option Err
+  imm : List String
+  res : List String
+
+/-- the model is functional: nothing a helper does can change its argument -/
+def multiStep (e : Err) (a : MAcc) (st : MStep) : MAcc :=
+  let x := if st.onPrev then (match a.prev with | some r => r | none => e) else e
+  let rr : Err × String := match st with
+    | .prep _ p =>
+      let r := prependError a.fresh p x
+      (r, if r.isProtocol then (match r.unwrap with | some _ => "set" | none => "nil") else "-")
+    | .wrap _ =>
+      let r := wrapErr a.fresh x
+      (r, if r == x then "same" else
+          match r.unwrap with
+          | some c => if c == x then "new-same" else "new-other"
+          | none => "new-nil")
+  let i := a.i + 1
+  { i := i, fresh := a.fresh + 1, prev := some rr.1,
+    imm := a.imm ++ [s!"a{i}={d3 x} g{i}={d3 e}"],
+    res := a.res ++ [s!"r{i}={d3 rr.1}/{rr.2}"] }
+
+def multiModel (e : Err) (steps : List MStep) : String :=
+  let a := steps.foldl (multiStep e) ⟨0, maxId e + 1, none, [], []⟩
+  " ".intercalate (s!"src={d3 e}" :: (a.imm ++ a.res))
+
+def fieldOf (toks : List String) (key : String) : Option String :=
+  (toks.find? (fun t => t.startsWith (key ++ "="))).map (fun t => (t.drop (key.length + 1)).toString)
+
+def specKindStr (k : String) : String := if k == "fe" then "ae" else k
+
+/-- C18 on the implementation's own values; `src` and `prev` are `<kind>/<tid>/<texthex>` as reported -/
+def multiVerdictGo (toks : List String) (src : String) : List MStep → Nat → Option String → String
+  | [], _, _ => "ok"
+  | st :: rest, i, prev =>
+    let tgt := if st.onPrev then (match prev with | some r => r | none => src) else src
+    match fieldOf toks s!"a{i}", fieldOf toks s!"g{i}", (fieldOf toks s!"r{i}").map (·.splitOn "/"), tgt.splitOn "/" with
+    | some a, some g, some [k, t, h, rel], [tk, tt, th] =>
+      if a != tgt then "bad:C18:argument-modified"
+      else if g != src then "bad:C18:source-error-modified"
+      else
+        let here : String := match st with
+          | .prep _ p =>
+            match parseHex h, parseHex th with
+            | some tx, some orig =>
+              if k != specKindStr tk then "bad:C18:prepend-kind"
+              else if t != tt then "bad:C18:prepend-typeid"
+              else if tx != p ++ orig then
+                (if tk == "fe" && orig.isEmpty && p.isEmpty then "bad:C18:prepend-text-foreign-empty"
+                 else "bad:C18:prepend-text")
+              else "ok"
+            | _, _ => "bad:protocol"
+          | .wrap _ =>
+            if tk == "pe" then
+              (if rel == "same" && s!"{k}/{t}/{h}" == tgt then "ok" else "bad:C18:wrap-not-identity")
+            else if rel != "new-same" then "bad:C18:wrap-cause-lost"
+            else "ok"
+        if here != "ok" then here else multiVerdictGo toks src rest (i + 1) (some s!"{k}/{t}/{h}")
+    | _, _, _, _ => "bad:protocol"
+
 def excModelNil (args : List String) : String :=
   match args with
   | ["exc", "prepend", p, "nil"] =>
@@ -123,6 +220,10 @@ def excModel (args : List String) : String :=
     match parseErr e with
     | some e => descr e
     | none => "bad-op"
+  | ["exc", "multi", src, e, steps] =>
+    match parseErr e, parseSteps steps with
+    | some e, some steps => if src == "t" || src.startsWith "c." then multiModel e steps else "bad-op"
+    | _, _ => "bad-op"
   | ["exc", "prepend", p, e] =>
     match parseHex p, parseErr e with
     | some p, some e =>
@@ -178,6 +279,11 @@ def excVerdict (args : List String) (impl : String) : String :=
       else if e.kind == .application && fld "name" != some "ApplicationException" then "bad:C18:string"
       else "ok"
     | none => "na"
+  | ["exc", "multi", _, e, steps] =>
+    match parseErr e, parseSteps steps, fieldOf toks "src" with
+    | some _, some steps, some src => multiVerdictGo toks src steps 1 none
+    | some _, some _, none => "bad:protocol"
+    | _, _, _ => "na"
   | ["exc", "prepend", p, e] =>
     match parseHex p, parseErr e, toks with
     | some p, some e, [k, tid, tx, orig, _cause] =>
@@ -226,7 +332,13 @@ def excVerdict (args : List String) (impl : String) : String :=
   | _ => "na"
 
 def handleExc (args : List String) (impl : String) : String × String :=
-  (excModel args, excVerdict args impl)
+  match args with
+  | ["exc", "multi", src, _, _] =>
+    -- a codec source presupposes that the real codec rejects the fixed input (other properties judge that);
+    -- where it does not, the harness says so and the line is outside this op's domain
+    if src.startsWith "c." && impl == "src-unavailable" then ("src-unavailable", "na")
+    else (excModel args, excVerdict args impl)
+  | _ => (excModel args, excVerdict args impl)
 
 end Verif
 
